@@ -165,6 +165,19 @@ def canon_attrs(attrs):
     return sorted([n, g.canon(t)] for n, t in attrs)
 
 
+def all_attribute_names(obj):
+    """Definition attributes an automaton object holds: the slots of its classes and its instance dict, caches aside."""
+    names = []
+    for klass in type(obj).__mro__:
+        for k in getattr(klass, "__slots__", ()):
+            if k not in names and not k.startswith("_") and k != "__dict__" and hasattr(obj, k):
+                names.append(k)
+    for k in getattr(obj, "__dict__", {}):
+        if k not in names and not k.startswith("_"):
+            names.append(k)
+    return names
+
+
 def check_object(ctx, cname, cls, kwargs_repr, mutable, tag):
     """One definition, one option setting."""
     kwargs = load(kwargs_repr)
@@ -227,7 +240,9 @@ def check_object(ctx, cname, cls, kwargs_repr, mutable, tag):
                 problems.append("model: stored values not deeply immutable")
         # copy / pickle
         for how, mk, mref in (("copy()", lambda: m.copy(), m_copy),
-                              ("pickle round trip", lambda: pickle.loads(pickle.dumps(m)), m_pickle)):
+                              ("pickle round trip", lambda: pickle.loads(pickle.dumps(m)), m_pickle),
+                              ("copy.copy", lambda: pycopy.copy(m), m_pickle),
+                              ("copy.deepcopy", lambda: pycopy.deepcopy(m), m_pickle)):
             try:
                 c = mk()
             except Exception as e:  # noqa: BLE001
@@ -242,8 +257,29 @@ def check_object(ctx, cname, cls, kwargs_repr, mutable, tag):
                 model_only.append(f"{how}: differs from the model's")
             if c is m:
                 problems.append(f"{how} returned the same object")
+            if not mutable:
+                # everything the new object holds (not only what input_parameters shows) is deeply immutable too
+                bad = []
+                for k in all_attribute_names(c):
+                    bad += g.mutable_paths(getattr(c, k), k)
+                if bad:
+                    problems.append(f"{how} gives an object that holds mutable values at " + ", ".join(bad[:4]))
         if g.snapshot(m.input_parameters) != snap0:
             problems.append("definition changed by copy()/pickle")
+        if mutable:
+            # pickled with the option on, loaded with it off: the loaded automaton is an ordinary (frozen) one
+            try:
+                data = pickle.dumps(m)
+                with Flags(False):
+                    c = pickle.loads(data)
+                    bad = []
+                    for k in all_attribute_names(c):
+                        bad += g.mutable_paths(getattr(c, k), k)
+                if bad:
+                    problems.append("an automaton pickled in mutable mode and loaded in default mode holds mutable values at "
+                                    + ", ".join(bad[:4]))
+            except Exception as e:  # noqa: BLE001
+                problems.append(f"pickle across option settings raised {type(e).__name__}: {e}")
         # later mutation of the objects passed to the constructor (default mode only: in mutable
         # mode sharing is the documented contract)
         if not mutable:
